@@ -16,7 +16,7 @@ from vmon.libutil import monitored, xtce_element
 
 LEVEL = "exploration"
 SHARDS = {"quick": 16, "thorough": 16}
-MUST = ["bool.string_or_binary_encoded", "bool.empty_raw_value", "spline.large_raw_coordinates", "enum.every_raw", "enum.unlisted_negative_raw", "spline.order0", "spline.order1", "poly", "context.first-of-several", "context.none-match-default", "context.none-match-nodefault",
+MUST = ["bool.string_or_binary_encoded", "bool.empty_raw_value", "spline.large_raw_coordinates", "spline.collinear_points", "time.shares_encoding_element", "enum.every_raw", "enum.unlisted_negative_raw", "spline.order0", "spline.order1", "poly", "context.first-of-several", "context.none-match-default", "context.none-match-nodefault",
         "enum.listed", "enum.unlisted", "bool", "time.scaled", "query.at-last-knot", "query.at-first-knot", "query.outside-noextrap",
         "route.ctor", "route.xml", "calibrate.contract_evaluations", "enum.wide"]
 RULE = ("case = (parameter type IR, earlier parameter values, field bits, bit offset, construction route); parse_value's "
@@ -432,6 +432,48 @@ def run(ctx):
                     ctx.sig("spline", "large-coordinates", order, route)
                     run_case(ctx, F, t, {}, q, rng.randrange(8), route, rng, {"_lib": lib, "kind": "numeric", "q": "large-coordinates"})
 
+    # ---- 4e. splines with runs of exactly collinear points (evenly sized steps): every point is still a step of a zero-order spline
+    for pts in (((0.0, 0.0), (10.0, 10.0), (20.0, 20.0), (30.0, 30.0), (40.0, 15.0)), ((0.0, 5.0), (4.0, 5.0), (8.0, 5.0), (12.0, 9.0)),
+                ((-20.0, 40.0), (-10.0, 20.0), (0.0, 0.0), (10.0, -20.0), (20.0, -40.0), (21.0, 7.0))):
+        for order in (0, 1):
+            for extrap in (False, True):
+                sp = ir.Spline(pts, order, extrap)
+                t = ir.PType("T", "float", ir.IntEnc(16, "signed", False, sp, ()))
+                for route in routes:
+                    item += 1
+                    if not ctx.mine(item):
+                        continue
+                    lib = F.make(t, route)
+                    for q in sorted({int(x) + dx for x, _ in pts for dx in (-1, 0, 1, 5)}):
+                        ctx.count("spline.collinear_points")
+                        ctx.sig("spline", "collinear", order, extrap, route)
+                        run_case(ctx, F, t, {}, q, rng.randrange(8), route, rng, {"_lib": lib, "kind": "numeric", "q": "collinear-points", "cal": calname(sp)})
+    # ---- 4f. one document in which a time type with scale/offset and a plain numeric type spell the SAME encoding element (both
+    #          declaration orders): the time type's linear scaling belongs to the time type alone ------------------------------
+    if ctx.shard == 2 % ctx.nshards:
+        from space_packet_parser import packets as P
+        from vmon import harness, render
+        from vmon.libutil import load_definition
+        from vmon.props.c05 import header_types
+        for nm, enc, body in (("float32", ir.FloatEnc(32, "IEEE754", False), b"\x3f\xc0\x00\x00" * 2), ("uint16", ir.IntEnc(16, "unsigned"), b"\x12\x34\x00\x07"),
+                              ("int8", ir.IntEnc(8, "signed"), b"\xfe\x05")):
+            for time_first in (True, False):
+                ts, ps = header_types("PKT_APID")
+                tt = ir.PType("T_T", "abstime", enc, "s", scale=0.5, offset=10.0)
+                vt = ir.PType("V_T", "float" if nm == "float32" else "integer", enc)
+                types = tuple(ts) + ((tt, vt) if time_first else (vt, tt))
+                doc = ir.Doc(types, tuple(ps) + (ir.Param("T", "T_T"), ir.Param("V", "V_T")),
+                             (ir.Container("CCSDSPacket", tuple(("p", p.name) for p in ps[:7]) + ((("p", "T"), ("p", "V")) if time_first else (("p", "V"), ("p", "T")))),))
+                info = harness.DocInfo(doc)
+                defn = load_definition(render.render_doc(doc))
+                raw = bytes(P.create_ccsds_packet(body))
+                step, pkt = harness.parse_single(defn, raw)
+                out = ref.walk(doc, raw)
+                ctx.count("evaluations")
+                ctx.count("time.shares_encoding_element")
+                ctx.sig("time", "shares-encoding-element", nm, time_first)
+                for mech, msg in harness.judge_single(ctx, info, raw, step, pkt, out):
+                    ctx.violation(f"time-shares-encoding-element/{nm}/{mech}", msg, {"encoding": nm, "time_type_first": time_first})
     # ---- 5. enum / bool must not depend on calibrators that cannot be evaluated for the raw value ---------------------
     bad_cals = [ir.Spline(((2.0, 1.0), (5.0, 2.0)), 0, False), ir.Spline(((2.0, 1.0), (5.0, 2.0)), 1, False),
                 ir.Poly(((1.0, -1),)), ir.Poly(((3.0, -2), (1.0, 0)))]
